@@ -9,6 +9,7 @@ import (
 
 	"github.com/elementsproject/peerswap/swap"
 
+	"verifharness/sim"
 	"verifharness/stats"
 )
 
@@ -16,6 +17,7 @@ func TestMain(m *testing.M) {
 	log.SetOutput(io.Discard)
 	swap.VerifSetPayTiming(200*time.Microsecond, 40*time.Millisecond)
 	swap.VerifSetNoBackoff(true)
+	stats.Starved = sim.Starved
 	code := m.Run()
 	stats.Flush()
 	os.Exit(code)
